@@ -213,13 +213,27 @@ def _data_fields_read(e, f=None):
     return out
 
 
-def _flatten_components(v):
-    """components of a label expression: '%s%s' % (a, b) | a + b + c | f-string"""
-    if isinstance(v, ast.BinOp) and isinstance(v.op, ast.Mod) and const_str(v.left) is not None \
-            and isinstance(v.right, ast.Tuple):
+def _flatten_components(v, f=None, at=None, depth=0):
+    """components of a label expression: '%s%s' % (a, b) | a + b + c | f-string | ''.join([...]) | nested ones;
+    a local whose only definition is such an expression is flattened through it."""
+    def rec(e):
+        if depth > 3:
+            return [e]
+        sub = _flatten_components(e, f, at, depth + 1) if isinstance(e, (ast.BinOp, ast.JoinedStr, ast.Call)) else None
+        if sub is None and isinstance(e, ast.Name) and f is not None:
+            from ..core import _unique_assign
+            d = _unique_assign(f, e.id)
+            if isinstance(d, (ast.BinOp, ast.JoinedStr)) :
+                sub = _flatten_components(d, f, at, depth + 1)
+        return sub if sub is not None else [e]
+    if isinstance(v, ast.BinOp) and isinstance(v.op, ast.Mod) and const_str(v.left) is not None:
         fmt = const_str(v.left)
-        if fmt.replace('%s', '') == '' and fmt.count('%s') == len(v.right.elts):
-            return list(v.right.elts)
+        args = list(v.right.elts) if isinstance(v.right, ast.Tuple) else [v.right]
+        if fmt.replace('%s', '') == '' and fmt.count('%s') == len(args):
+            out = []
+            for x in args:
+                out.extend(rec(x))
+            return out
         return None
     if isinstance(v, ast.BinOp) and isinstance(v.op, ast.Add):
         comps = []
@@ -229,114 +243,185 @@ def _flatten_components(v):
                 flat(e.left)
                 flat(e.right)
             else:
-                comps.append(e)
+                comps.extend(rec(e))
         flat(v)
         return comps
     if isinstance(v, ast.JoinedStr):
         if any(isinstance(x, ast.Constant) and x.value for x in v.values):
             return None
-        return [x.value for x in v.values if isinstance(x, ast.FormattedValue)]
+        out = []
+        for x in v.values:
+            if isinstance(x, ast.FormattedValue):
+                if x.format_spec is not None or x.conversion not in (-1, 115):
+                    return None
+                out.extend(rec(x.value))
+        return out
+    if isinstance(v, ast.Call) and isinstance(v.func, ast.Attribute) and v.func.attr == 'join' \
+            and const_str(v.func.value) == '' and len(v.args) == 1 and isinstance(v.args[0], (ast.List, ast.Tuple)):
+        out = []
+        for x in v.args[0].elts:
+            out.extend(rec(x))
+        return out
+    if isinstance(v, ast.Call) and isinstance(v.func, ast.Attribute) and v.func.attr == 'format' \
+            and const_str(v.func.value) is not None and not v.keywords:
+        fmt = const_str(v.func.value)
+        if fmt.replace('{}', '') == '' and fmt.count('{}') == len(v.args):
+            out = []
+            for x in v.args:
+                out.extend(rec(x))
+            return out
+        return None
     if isinstance(v, ast.Name):
-        return [v]
+        r = rec(v)
+        return r
     return None
 
 
 DECOR_OPTION_KEYS = ('gf', 'gf_terminals', 'mark_heads_marking', 'boyd_split_marking', 'boyd_split_numbering')
 
 
+def _fields_of_case(c, f, common):
+    import re
+    out = set(_data_fields_read(c.value, f)) if c.value is not None else set()
+    for fa in c.facts:
+        if fa in common:
+            continue
+        for t in fa[1:]:
+            if isinstance(t, str):
+                out |= set(re.findall(r"\.data\[['\"](\w+)['\"]\]", t))
+    return out
+
+
+def _is_empty_str(e):
+    return isinstance(e, ast.Constant) and e.value == ''
+
+
 def r_decor(prog, tier):
+    from ..values import expr_cases
     obs = []
     f = prog.func('trees', 'get_label')
     cfg = f.cfg
     kw = f.kwarg
     if not kw:
         raise Unrecognised('get_label has no **params')
-    rets = [n for n in walk_own(f.node) if isinstance(n, ast.Return)]
+    rets = [n for n in cfg.eval_nodes() if n.kind == 'stmt' and isinstance(n.ast, ast.Return)]
     if not rets:
         raise Unrecognised('get_label has no return')
     comps_of = {}
     for r in rets:
-        comps_of[r] = _flatten_components(r.value) if r.value is not None else []
+        comps_of[r.id] = _flatten_components(r.ast.value, f, r.id) if r.ast.value is not None else []
     known = [len(c) for c in comps_of.values() if c is not None]
     most = max(known) if known else 0
     main = None
     for r in rets:
-        comps = comps_of[r]
+        if comps_of[r.id] is not None and len(comps_of[r.id]) == most and most >= 2:
+            main = r
+    info = []     # per component of the main return: (cases, common facts, fields)
+    if main is not None:
+        for c in comps_of[main.id]:
+            cases = expr_cases(f, c, main.id)
+            common = set(cases[0].facts)
+            for cs in cases[1:]:
+                common &= set(cs.facts)
+            if len(cases) == 1:
+                common = set()
+            fields = set()
+            for cs in cases:
+                fields |= _fields_of_case(cs, f, common)
+            info.append((cases, common, fields))
+    for r in rets:
+        comps = comps_of[r.id]
+        rtxt = unparse(r.ast)
         if comps is None:
-            obs.append(Ob('DECOR/RETURN', f.fq, 'return `%s` carries the label and every decoration' % unparse(r)[:60], None,
-                          'shape of the returned expression not recognised', construct='ret:' + unparse(r), line=r.lineno))
+            obs.append(Ob('DECOR/RETURN', f.fq, 'return `%s` carries the label and every decoration' % rtxt[:60], None,
+                          'shape of the returned expression not recognised', construct='ret:' + rtxt, line=r.lineno))
             continue
-        if len(comps) < most:
-            obs.append(Ob('DECOR/RETURN', f.fq, 'return `%s` carries the label and every decoration' % unparse(r)[:60], False,
-                          'this path returns %d component(s) while another return has %d: the decorations computed '
-                          'elsewhere are lost on it' % (len(comps), most), construct='ret:' + unparse(r), line=r.lineno))
-            continue
-        main = r
-        names_ok = all(isinstance(c, ast.Name) for c in comps)
-        tied = []
-        if names_ok:
+        if r is not main and main is not None and len(comps) < most:
+            # a shorter return is fine on paths on which the dropped decorations are empty anyway
+            here = [x[0] for x in facts_at(cfg, r.id)]
+            kept = set()
             for c in comps:
-                fields = set()
-                for (nid, val) in name_defs(f, c.id):
-                    if isinstance(val, ast.AST):
-                        fields |= set(_data_fields_read(val, f))
-                        for a in cfg.assumes_at(nid):
-                            fields |= set(_data_fields_read(a.ast, f))
-                tied.append(fields)
+                for cs in expr_cases(f, c, r.id):
+                    kept |= _fields_of_case(cs, f, set())
+            lost = []
+            unknown = False
+            for (cases, common, fields) in info[1:]:
+                if fields and fields <= kept:
+                    continue
+                if not fields:
+                    unknown = True
+                    continue
+                for cs in cases:
+                    if cs.kind != 'value':
+                        unknown = True
+                        continue
+                    if _is_empty_str(cs.value):
+                        continue
+                    keys = [fa for fa in cs.facts if fa[0] == 'haskey' and fa[1] == kw]
+                    if not keys:
+                        unknown = True
+                        continue
+                    excluded = any((fa[0], fa[1], fa[2], not fa[3]) in here for fa in keys)
+                    if not excluded:
+                        lost.append((sorted(fields), [fa[2] for fa in keys if fa[3]]))
+            if lost:
+                verdict, why = False, 'this path returns %d component(s) while another return has %d: the decoration(s) %s ' \
+                                      'are dropped although nothing on this path rules their options out' \
+                                      % (len(comps), most, '; '.join('%s (option %s)' % (x[0], '/'.join(x[1])) for x in lost))
+            elif unknown:
+                verdict, why = None, 'shorter return; the decorations it drops could not all be tied to options'
+            else:
+                verdict, why = True, 'shorter return on a path on which the dropped decorations are switched off'
+            obs.append(Ob('DECOR/RETURN', f.fq, 'return `%s` carries the label and every decoration' % rtxt[:60], verdict,
+                          why, construct='ret:' + rtxt, line=r.lineno))
+            continue
+        if r is not main:
+            continue
+        tied = [fields for (_, _, fields) in info]
         ok = None
-        why = 'components not all simple locals'
-        if names_ok and len(comps) == 5:
+        why = 'components could not all be tied to their node fields'
+        if len(comps) == 5:
             order_ok = 'label' in tied[0] and 'edge' in tied[1] and 'head' in tied[2] \
                 and 'split' in tied[3] and 'block_number' not in tied[3] and 'block_number' in tied[4]
             if order_ok:
                 ok, why = True, 'five components, tied to label/edge/head/split/block_number in this order'
-            elif all(tied[1:]) and [sorted(t)[0] if t else '' for t in tied[1:]] != ['edge', 'head', 'split', 'block_number'] \
-                    and set().union(*tied[1:]) >= {'edge', 'head', 'split', 'block_number'}:
-                ok, why = False, 'the decorations are concatenated in another order than function, head mark, split mark, split number'
-            else:
-                why = 'components could not all be tied to their node fields'
-        elif names_ok and len(comps) < 5:
+            elif all(tied[1:]) and all(len(t - {'split'}) <= 1 for t in tied[1:]):
+                firsts = []
+                for t in tied[1:]:
+                    t2 = t - {'split'} if len(t) > 1 else t
+                    firsts.append(sorted(t2)[0])
+                if sorted(firsts) == ['block_number', 'edge', 'head', 'split'] and firsts != ['edge', 'head', 'split', 'block_number']:
+                    ok, why = False, 'the decorations are concatenated in the order %s, not function, head mark, split mark, ' \
+                                     'split number' % firsts
+        elif len(comps) < 5:
             ok, why = None, '%d components (a decoration may have been merged into another one)' % len(comps)
         obs.append(Ob('DECOR/RETURN', f.fq, 'the label is the category followed by function, head mark, split mark and '
-                      'split number, in this order: `%s`' % unparse(r)[:60], ok, why, construct='ret:' + unparse(r), line=r.lineno))
+                      'split number, in this order: `%s`' % rtxt[:60], ok, why, construct='ret:' + rtxt, line=r.lineno))
     if main is None:
         return obs, {}
-    comps = [c for c in comps_of[main] if isinstance(c, ast.Name)]
-    for c in comps[1:]:
-        c = c.id
-        defs = name_defs(f, c)
-        branches = []       # (node id, value ast, [facts]) for non-empty values
-        has_empty = False
-        for (nid, val) in defs:
-            if not isinstance(val, ast.AST):
-                continue
-            if isinstance(val, ast.Constant) and val.value == '':
-                has_empty = True
-                continue
-            if isinstance(val, ast.IfExp):
-                for (v2, pol) in ((val.body, True), (val.orelse, False)):
-                    if isinstance(v2, ast.Constant) and v2.value == '':
-                        has_empty = True
-                        continue
-                    extra = [(norm_test(e, p_), nid) for (e, p_) in split_assumes(val.test, pol)]
-                    branches.append((nid, v2, facts_at(cfg, nid) + extra, val.test))
-                continue
-            branches.append((nid, val, facts_at(cfg, nid), None))
+    for idx, (comp, (cases, common, _)) in enumerate(zip(comps_of[main.id], info)):
+        if idx == 0:
+            continue
+        c = unparse(comp)
+        has_empty = any(cs.kind == 'value' and _is_empty_str(cs.value) for cs in cases)
         obs.append(Ob('DECOR/DEFAULT', f.fq, 'decoration `%s` is the empty string unless an option sets it' % c,
-                      True if has_empty else None, 'has an "" definition' if has_empty else 'no "" default recognised',
+                      True if has_empty else None, 'has an "" case' if has_empty else 'no "" default recognised',
                       construct='dflt:' + c, line=f.node.lineno, nontrivial=False))
-        for (nid, val, facts, ifexp_test) in branches:
+        for cs in cases:
+            if cs.kind != 'value':
+                obs.append(Ob('DECOR/GUARD', f.fq, 'decoration `%s`' % c, None, 'definition of kind %s not modelled' % cs.kind,
+                              construct='decor-kind:' + c, line=cfg.nodes[cs.node].lineno))
+                continue
+            val = cs.value
+            if _is_empty_str(val):
+                continue
+            nid = cs.node
             if isinstance(val, ast.Call) and prog.callee(val, f) is not None:
                 obs.append(Ob('DECOR/GUARD', f.fq, 'decoration `%s` computed by a helper' % c, None,
                               'delegated to %s.%s: not followed' % prog.callee(val, f), construct='decor-helper:' + c,
                               line=cfg.nodes[nid].lineno))
                 continue
-            fields = set(_data_fields_read(val, f))
-            guard_exprs = [cfg.nodes[a].ast for (_, a) in facts if cfg.nodes[a].kind == 'assume']
-            for ge in guard_exprs:
-                fields |= set(_data_fields_read(ge, f))
-            if ifexp_test is not None:
-                fields |= set(_data_fields_read(ifexp_test, f))
+            fields = _fields_of_case(cs, f, set())
             need = None
             for fld in ('block_number', 'edge', 'head', 'split'):
                 if fld in fields:
@@ -347,27 +432,33 @@ def r_decor(prog, tier):
                               % (c, unparse(val)[:40]), None, 'reads no node field this rule can see',
                               construct='decor-free:' + unparse(val), line=cfg.nodes[nid].lineno))
                 continue
-            fl = [x[0] for x in facts]
+            fl = list(cs.facts)
             have = [fa for fa in fl if fa[0] == 'haskey' and fa[1] == kw and fa[3] is True]
             ok = any(fa[2] in need for fa in have)
             verdict = True if ok else None
-            why = 'dominated by `%r in %s`' % ([fa[2] for fa in have if fa[2] in need][0], kw) if ok else \
+            why = 'only under `%r in %s`' % ([fa[2] for fa in have if fa[2] in need][0], kw) if ok else \
                 'the option test was not recognised'
             if not ok:
-                # positive evidence: the key is tested, but inside an `or` (the decoration can be switched on without it)
+                # positive evidence 1: the key is tested, but inside an `or` (the decoration can be switched on without it)
                 for fa in fl:
                     if fa[0] == 'opaque' and fa[2] is True and any("'%s' in %s" % (k, kw) in fa[1] for k in need) and ' or ' in fa[1]:
                         verdict, why = False, 'the option %s is only one alternative of `%s`: the decoration can appear ' \
                                               'without it' % (need, fa[1][:70])
-                if verdict is None and not any(any("'%s'" % k in unparse(cfg.nodes[a].ast) for k in need) for (_, a) in facts) \
-                        and (ifexp_test is None or not any("'%s'" % k in unparse(ifexp_test) for k in need)):
+                # positive evidence 2: every condition on this case is understood and none mentions the option
+                understood = all(fa[0] in ('haskey', 'truthy', 'none', 'cmp') or
+                                 (fa[0] == 'opaque' and not any("'%s'" % k in fa[1] for k in DECOR_OPTION_KEYS)
+                                  and kw not in fa[1]) for fa in fl)
+                mentions = any(any("'%s'" % k in str(t) for k in need) for fa in fl for t in fa[1:])
+                if verdict is None and understood and not mentions:
                     verdict, why = False, 'the decoration is computed without consulting option %s at all' % (need,)
             # independence: must not depend on another decoration option being absent
             if verdict is not False:
                 for fa in fl:
                     txt = fa[1] if fa[0] in ('opaque',) else ''
-                    neg = (fa[0] == 'haskey' and fa[1] == kw and fa[3] is False and fa[2] in DECOR_OPTION_KEYS and fa[2] not in need) \
-                        or (fa[0] == 'opaque' and fa[2] is False and any("'%s' in %s" % (k, kw) in txt for k in DECOR_OPTION_KEYS if k not in need))
+                    neg = (fa[0] == 'haskey' and fa[1] == kw and fa[3] is False and fa[2] in DECOR_OPTION_KEYS and fa[2] not in need
+                           and fa[2] != 'gf_terminals') \
+                        or (fa[0] == 'opaque' and fa[2] is False and ' or ' not in txt
+                            and any("'%s' in %s" % (k, kw) in txt for k in DECOR_OPTION_KEYS if k not in need and k != 'gf_terminals'))
                     if neg:
                         verdict, why = False, 'the decoration is written only when another output option is absent (`%s`): ' \
                                               'with both options one of them is lost' % (fa[1] if fa[0] == 'opaque' else fa[2])
@@ -379,7 +470,10 @@ def r_decor(prog, tier):
                 for fa in fl:
                     if fa[0] == 'opaque' and fa[2] is True and ' or ' in fa[1] and 'has_children(' in fa[1] and "'gf_terminals' in %s" % kw in fa[1]:
                         ok2 = True
-                if ok2 is None and not any('gf_terminals' in unparse(cfg.nodes[a].ast) for (_, a) in facts):
+                if ok2 is None and not any('gf_terminals' in str(t) for fa in fl for t in fa[1:]) \
+                        and all(fa[0] in ('haskey', 'truthy', 'none', 'cmp', 'opaque') for fa in fl) \
+                        and not any(isinstance(x, ast.Call) and prog.callee(x, f) not in (None, ('trees', 'has_children'))
+                                    for x in walk_own(f.node)):
                     ok2 = False
                 obs.append(Ob('DECOR/GUARD', f.fq, 'tokens get the function label only with gf_terminals', ok2,
                               'guard `has_children(tree) or \'gf_terminals\' in params`' if ok2 else
@@ -435,61 +529,30 @@ def _const_name(e):
 
 def _sep_symbol(f, name, at, lp):
     """Symbolic value of a separator variable at node `at`:
-    ('sep', CONST, FIELD) if it is CONST when len(lp.FIELD) > 0 and '' when it is 0."""
-    cfg = f.cfg
-    defs = [(n, v) for (n, v) in name_defs(f, name) if cfg.dominates(n, at) or n in cfg.coreach(at)]
-    # keep the definitions that can reach `at` without being overwritten by a dominating later one
-    reach = []
-    for (n, v) in defs:
-        if not isinstance(v, ast.AST):
-            return ('unknown', name)
-        killed = False
-        for (m, _) in defs:
-            if m != n and cfg.dominates(n, m) and cfg.dominates(m, at) and m != at:
-                killed = True
-        if not killed:
-            reach.append((n, v))
-    uncond = []
-    cond = []
-    for (n, v) in reach:
-        guards = []
-        for a in cfg.assumes_at(n):
-            fa = norm_test(a.ast, a.pol)
-            if fa[0] == 'cmp' and ('len(%s.' % lp) in (fa[1] + fa[3]):
-                guards.append(fa)
-            elif fa[0] == 'truthy' and fa[1].startswith(lp + '.'):
-                guards.append(('cmp', 'len(%s)' % fa[1], '==' if not fa[2] else '!=', '0'))
-        if guards:
-            cond.append((n, v, guards))
-        else:
-            uncond.append((n, v))
-    if len(uncond) == 1 and not cond:
-        c = _const_name(uncond[0][1])
-        return ('const', c)
-    if len(uncond) == 1 and len(cond) == 1:
-        base = _const_name(uncond[0][1])
-        alt = _const_name(cond[0][1])
-        g = cond[0][2][-1]
-        fld = None
-        empty_when = None
-        for side in (g[1], g[3]):
-            if side.startswith('len(%s.' % lp) and side.endswith(')'):
-                fld = side[len('len(%s.' % lp):-1]
-        if fld is None:
-            return ('unknown', name)
-        other = g[3] if g[1].startswith('len(') else g[1]
-        op = g[2]
-        if op == '==' and other == '0':
-            empty_when = 'cond'       # condition holds when the field is empty
-        elif (op == '!=' and other == '0') or (op == '<' and g[1] == '0'):
-            empty_when = 'base'
-        else:
-            return ('unknown', name)
-        if empty_when == 'cond' and alt == "''":
-            return ('sep', base, fld)
-        if empty_when == 'base' and base == "''":
-            return ('sep', alt, fld)
-        return ('mixed', base, alt, fld, empty_when)
+    ('sep', CONST, FIELD) if it is CONST when lp.FIELD is non-empty and '' when it is empty."""
+    import re
+    from ..values import value_cases, is_empty_fact
+    cs = value_cases(f, name, at)
+    if not cs or any(c.kind != 'value' for c in cs):
+        return ('unknown', name)
+    if len(cs) == 1:
+        return ('const', _const_name(cs[0].value))
+    if len(cs) == 2:
+        flds = set()
+        for c in cs:
+            for fa in c.facts:
+                for txt in fa[1:]:
+                    if isinstance(txt, str):
+                        flds |= set(re.findall(r'\b%s\.(\w+)' % re.escape(lp), txt))
+        for fld in sorted(flds):
+            t = '%s.%s' % (lp, fld)
+            e = [c for c in cs if is_empty_fact(c.facts, t, True)]
+            ne = [c for c in cs if is_empty_fact(c.facts, t, False)]
+            if len(e) == 1 and len(ne) == 1 and e[0] is not ne[0]:
+                ev, nv = _const_name(e[0].value), _const_name(ne[0].value)
+                if ev == "''":
+                    return ('sep', nv, fld)
+                return ('mixed', nv, ev, fld)
     return ('unknown', name)
 
 
@@ -709,21 +772,26 @@ def _sid_rules(prog):
         for n in cfg.eval_nodes():
             if n.kind == 'stmt' and isinstance(n.ast, ast.Assign) and unparse(n.ast.targets[0]).endswith(".data['sid']"):
                 stores.append(n)
-        if len(stores) != 1:
-            obs.append(Ob('R-SIBLING/SID', f.fq, 'sentence id assignment', None, '%d stores of the sentence id' % len(stores),
+        if not stores:
+            obs.append(Ob('R-SIBLING/SID', f.fq, 'sentence id assignment', None, 'no store of the sentence id found',
                           construct='sid-shape-' + nm))
             continue
+        from ..values import expr_cases
+        cases = []
+        for st in stores:
+            base = [x[0] for x in facts_at(cfg, st.id)]
+            ecs = expr_cases(f, st.ast.value, st.id)
+            if not (all(c.kind == 'value' for c in ecs)
+                    and any(('haskey', kw, 'continuous', True) in c.facts for c in ecs)
+                    and any(('haskey', kw, 'continuous', False) in c.facts for c in ecs)):
+                # not a value selected by the option: keep the expression itself (a counter, an id read earlier)
+                from ..values import Case
+                ecs = [Case([], st.ast.value, st.id)]
+            for c in ecs:
+                cases.append((base + list(c.facts), c.value, c.node, c.kind))
         st = stores[0]
         v = st.ast.value
-        if isinstance(v, ast.Name):
-            d = single_def(f, v.id, st.id)
-            if d and d[0] != 'param' and isinstance(d[1], ast.IfExp):
-                v = d[1]
-                use = d[0]
-            else:
-                use = st.id
-        else:
-            use = st.id
+        use = st.id
         if nm == 'brackets':
             ok = isinstance(v, ast.Name)
             why = 'sentence id is not a plain counter'
@@ -743,25 +811,22 @@ def _sid_rules(prog):
             continue
         ok = False
         why = 'sentence id is not `<counter> if \'continuous\' in params else <id from file>`'
-        if isinstance(v, ast.IfExp):
-            t = norm_test(v.test, True)
-            if t == ('haskey', kw, 'continuous', True):
-                cnt, fid = v.body, v.orelse
-            elif t == ('haskey', kw, 'continuous', False):
-                cnt, fid = v.orelse, v.body
-            else:
-                cnt = fid = None
-            val = src_ok = None
-            src_why = ''
+        cont = [c for c in cases if ('haskey', kw, 'continuous', True) in c[0]]
+        nocont = [c for c in cases if ('haskey', kw, 'continuous', False) in c[0]]
+        cnt = fid = None
+        val = src_ok = None
+        src_why = ''
+        if len(cases) == 2 and len(cont) == 1 and len(nocont) == 1 and cont[0][3] == 'value' and nocont[0][3] == 'value':
+            cnt, fid = cont[0][1], nocont[0][1]
             if isinstance(cnt, ast.Name):
-                val, how, other = _counter_first_value(f, cnt.id, use)
-                src_ok, src_why = _file_id_ok(f, nm, fid, use)
+                val, how, other = _counter_first_value(f, cnt.id, cont[0][2])
+                src_ok, src_why = _file_id_ok(f, nm, fid, nocont[0][2])
                 ok = val == 1 and not other and src_ok
                 why = 'counter `%s` (%s) when continuous, else %s' % (cnt.id, how, src_why) if ok else \
                     'counter `%s`: first value %s (%s), other definitions %d; file id: %s' \
                     % (cnt.id, val, how, len(other), src_why)
         verdict = True if ok else None
-        if not ok and isinstance(v, ast.IfExp) and isinstance(cnt, ast.Name):
+        if not ok and isinstance(cnt, ast.Name):
             if val is not None and val != 1:
                 verdict = False
             elif src_ok is False and ('.search(' in src_why or '.match(' in src_why or '[0]' in src_why):
